@@ -194,6 +194,51 @@ pub fn cases(tier: &str, seed: u64, focus: &str) -> Vec<RsCase> {
                 out.push(RsCase { stratum: "noError", size: s, data: Some(rand_vec(&mut rng, s.data)), errs: vec![], recv: None, correct: true });
             }
         }
+        // within capacity but on the thin sets: error values chosen so that the first m syndromes of the block vanish
+        for s in &sizes {
+            let t = s.ec / 2;
+            if t < 2 {
+                continue;
+            }
+            let reps = if thorough { 6 } else { 2 };
+            for b in 0..s.blocks {
+                let pos = s.block_positions(b);
+                let n = pos.len();
+                for w in [2usize, 3, t / 2 + 1, t] {
+                    if w > t || w < 2 {
+                        continue;
+                    }
+                    for m in [1usize, w / 2, w - 1] {
+                        if m < 1 || m >= w {
+                            continue;
+                        }
+                        for _ in 0..reps {
+                            let idxs = choose(&mut rng, &(0..n).collect::<Vec<_>>(), w);
+                            let degs: Vec<usize> = idxs.iter().map(|i| n - 1 - i).collect();
+                            let free: Vec<u8> = (0..w - m).map(|_| nz(&mut rng)).collect();
+                            if let Some(y) = gf.values_with_zero_syndromes(&degs, m, &free) {
+                                let errs = idxs.iter().zip(y.iter()).map(|(i, v)| (pos[*i], *v)).collect();
+                                out.push(RsCase { stratum: "zeroSyndromesWithin", size: s, data: Some(rand_vec(&mut rng, s.data)), errs, recv: None, correct: true });
+                            }
+                        }
+                    }
+                }
+                if s.blocks > 2 && b == 1 && !thorough {
+                    break;
+                }
+            }
+        }
+        // 10x10 (t = 2): every position pair, second value chosen so that S1 = 0
+        let s10 = by_name("Square10").unwrap();
+        for i in 0..8 {
+            for j in i + 1..8 {
+                for v in [1u8, 2, 0x53, 0xFF] {
+                    if let Some(y) = gf.values_with_zero_syndromes(&[7 - i, 7 - j], 1, &[v]) {
+                        out.push(RsCase { stratum: "zeroSyndromesWithin", size: s10, data: Some(rand_vec(&mut rng, 3)), errs: vec![(i, y[0]), (j, y[1])], recv: None, correct: true });
+                    }
+                }
+            }
+        }
         // small sizes: all position sets of weight <= 2 (one fixed data vector)
         for s in sizes.iter().filter(|s| s.total() <= 24 && s.ec / 2 >= 2) {
             let n = s.total();
